@@ -1482,14 +1482,18 @@ void restore_object_from_buff (object_t * ob, char *theBuff, int noclear) {
       if (buff[0] == '#')	/* ignore 'comments' in savefiles */
         continue;
       space = strchr (buff, ' ');
-      if (!space || ((space - buff) >= (int)sizeof (var)))
+      if (!space)
         {
           FREE (theBuff);
           error ("restore_object(): Illegal file format.\n");
         }
-      (void) strncpy (var, buff, space - buff);
-      var[space - buff] = '\0';
-      idx = find_global_variable (current_object->prog, var, &t);
+      /* the name is looked up where it stands (save_object() writes names of any length);
+       * var[] only serves the error messages below */
+      *space = '\0';
+      idx = find_global_variable (current_object->prog, buff, &t);
+      (void) strncpy (var, buff, sizeof (var) - 1);
+      var[sizeof (var) - 1] = '\0';
+      *space = ' ';
       if (idx == -1 || t & NAME_STATIC)
         continue;
 
